@@ -28,25 +28,36 @@ class It:
         except StopIteration: return none()
 
 class Handler:
-    __slots__ = ('name', 'fn', 'first', 'm')
-    def __init__(self, name, fn, first, m): self.name, self.fn, self.first, self.m = name, fn, first, m
-    def __call__(self, ex, callee, args): return self.fn(ex, callee, args, self.m)
+    """all models matching a callee text, in registration order; a model may decline by returning NotImplemented"""
+    __slots__ = ('name', 'chain', 'first')
+    def __init__(self, chain): self.chain = chain; self.name = chain[0][0]; self.first = chain[0][2]
+    def __call__(self, ex, callee, args):
+        for name, fn, first, m in self.chain:
+            r = fn(ex, callee, args, m)
+            if r is not NotImplemented:
+                self.name = name; return r
+        raise Unsupported('no model accepted ' + callee)
 
 class Models:
     def __init__(self):
         self.entries = []; self.memo = {}; self.consts = {}
-    def add(self, pattern, first=False, name=None):
+    def add(self, pattern, first=False, name=None, front=False):
         rx = re.compile(pattern)
         def deco(fn):
-            self.entries.append((rx, fn, first, name or fn.__name__)); return fn
+            e = (rx, fn, first, name or fn.__name__)
+            if front: self.entries.insert(0, e)
+            else: self.entries.append(e)
+            self.memo.clear()
+            return fn
         return deco
     def lookup(self, ex, callee):
         h = self.memo.get(callee, 0)
         if h != 0: return h
-        h = None
+        chain = []
         for rx, fn, first, name in self.entries:
             m = rx.search(callee)
-            if m: h = Handler(name, fn, first, m); break
+            if m: chain.append((name, fn, first, m))
+        h = Handler(chain) if chain else None
         self.memo[callee] = h
         return h
     def dynamic(self, ex, callee, args): return NotImplemented
